@@ -187,6 +187,11 @@ def main():
     }
     with open(os.path.join(VERIF, "MANIFEST.json"), "w") as f:
         json.dump(m, f, indent=1)
+    # the library root imports the property files of every claimed check, so that setup_cmd builds them all
+    root = ["-- generated by harness/manifest.py: one import per claimed property"]
+    root += [f"import CspuzModel.Properties.{p}" for p in sorted(CLAIMED)]
+    with open(os.path.join(VERIF, "lean", "CspuzModel.lean"), "w") as f:
+        f.write("\n".join(root) + "\n")
 
 
 if __name__ == "__main__":
